@@ -261,11 +261,11 @@ def r43(ctx, R, rule='R4.3'):
             for s in ctx.cg.calls_in(impl):
                 if any(g.qbase in (ENSURE, INSPECT) for g in s.callees):
                     acq.append(s.node)
+            n += 1
             if not R.ob(rule, '%s:acquisition' % impl.qname, len(acq) == 1,
                         'one ensure_consumer/inspect_consumers call',
                         '%d' % len(acq), func=impl, nontrivial=False):
                 continue
-            n += 1
             a_st = C.stmt_of(acq[0])
             g = cfgmod.cfg_of(impl)
             after = g.reachable_from([a_st], normal_only=True) - {a_st}
